@@ -339,6 +339,53 @@ fn fingerprint_ctx(c: &Ctx) -> Vec<String> {
     fingerprint_with(|| unsafe { chewing_Reset(c.0); }, |k| c.key(k), || c.triple())
 }
 
+/// key sequences whose result depends on the options and on the conversion engine in effect (partial syllables:
+/// the fuzzy engine; a two-syllable phrase vs its single words: the simple engine; Space, symbols, letters: the
+/// boolean options, language mode, character form)
+const CONFIG_PROBE: [&str; 14] = ["hk4g4", "hg", "hk4g", "su3cl3", "su3cl", "h", "hk4g4hk4g4", "ji3g4", "su3 ", "hk4g4 ", "5j/ jp6", "a,1", "hk4g4\x1b", "Q<"];
+
+fn config_fingerprint(c: &Ctx) -> Vec<String> {
+    let mut out = vec![];
+    for s in CONFIG_PROBE {
+        unsafe { chewing_Reset(c.0) };
+        for k in s.bytes() {
+            if k == 0x1b {
+                unsafe { chewing_handle_Esc(c.0) };
+            } else {
+                c.key(k);
+            }
+        }
+        out.push(format!("{} cursor={} cand={}", c.triple(), unsafe { chewing_cursor_Current(c.0) }, unsafe { chewing_cand_TotalChoice(c.0) }));
+    }
+    unsafe { chewing_Reset(c.0) };
+    out
+}
+
+/// "the configuration that is reported is the configuration in effect": a fresh context given every REPORTED value
+/// (the 13 integer options, the keyboard type, the selection keys) must handle the probe sequences exactly like this
+/// one.  Only called while nothing has been typed into `c` since its creation except uncommitted keys (no learning).
+fn reported_configuration_in_effect(c: &Ctx) -> Option<String> {
+    let r = new_ctx();
+    for n in IOPTS {
+        let v = c.get_int(n);
+        if r.set_int(n, v) != 0 {
+            return Some(format!("the reported value {} of {} is rejected by a fresh context", v, n));
+        }
+    }
+    unsafe { chewing_set_KBType(r.0, c.kbtype()) };
+    let sk = c.selkeys();
+    unsafe { chewing_set_selKey(r.0, sk.as_ptr(), 10) };
+    let a = config_fingerprint(c);
+    let b = config_fingerprint(&r);
+    for (i, (x, y)) in a.iter().zip(b.iter()).enumerate() {
+        if x != y {
+            return Some(format!("keys {:?} give (bopomofo/pre-edit/commit) {} on this context but {} on a fresh context configured with the values it reports: {}",
+                CONFIG_PROBE[i], x, y, IOPTS.iter().map(|n| format!("{}={}", n.trim_start_matches("chewing."), c.get_int(n))).collect::<Vec<_>>().join(" ")));
+        }
+    }
+    None
+}
+
 const KEYBOARDS: [&str; 8] = ["Qwerty", "Dvorak", "DvorakOnQwerty", "Qgmlwy", "Colemak", "ColemakDhAnsi", "ColemakDhOrth", "Workman"];
 const SYLS: [&str; 10] = [
     "Standard::new",
@@ -974,8 +1021,21 @@ fn run_case(r: &mut Run, id: usize, case: &Case) {
     let mut executed: Vec<String> = vec![];
     let mut idx = 0usize;
     let mut queue: std::collections::VecDeque<Op> = case.ops.iter().cloned().collect();
+    // nothing committed (hence nothing learned) so far: the configuration probe compares with a fresh context
+    let mut clean = true;
+    let mut probed_at = usize::MAX;
     while let Some(op) = queue.pop_front() {
+        if let Op::Act(_) = op {
+            clean = false;
+        }
         if let Op::F = op {
+            if clean && probed_at != idx {
+                probed_at = idx;
+                r.evaluations += CONFIG_PROBE.len() as u64;
+                if let Some(f) = reported_configuration_in_effect(&c) {
+                    emit(&format!("X {} {}", json_str("reported-configuration-not-in-effect"), json_str(&f)));
+                }
+            }
             // the probe compares with reference editors that run with the default options: bring every
             // integer option back to its default through recorded ops first
             let need: Vec<Op> = DEFAULTS.iter().enumerate().filter(|(o, v)| c.get_int(IOPTS[*o]) != **v).map(|(o, v)| Op::I(IOPTS[o].to_string(), *v)).collect();
@@ -1043,6 +1103,12 @@ fn run_case(r: &mut Run, id: usize, case: &Case) {
             }
         }
         idx += 1;
+    }
+    if clean && probed_at != idx {
+        r.evaluations += CONFIG_PROBE.len() as u64;
+        if let Some(f) = reported_configuration_in_effect(&c) {
+            emit(&format!("X {} {}", json_str("reported-configuration-not-in-effect"), json_str(&f)));
+        }
     }
     emit(&format!("M END {} {}", id, r.evaluations));
     r.evaluations = 0;
